@@ -24,13 +24,22 @@
     spec fn process_req(&self) -> bool;
     /// the source may hand event `e` to the user callback while processing (readiness, token)
     spec fn may_call(&self, readiness: Readiness, token: Token, e: Self::Event) -> bool;
+    /// what process_events needs to know about the callback: each implementor defines it as
+    /// `forall e, m. self.may_call(readiness, token, e) ==> call_requires(callback, (e, m))`, so that the
+    /// callback is *callable only* for events allowed by may_call. (Stated per implementor and not once in
+    /// the trait because Verus 0.2026.09.13 does not normalise `Self::Event` inside an inherited
+    /// `call_requires` for generic impls.)
+    spec fn cb_req<CbF: FnMut(Self::Event, &mut Self::Metadata) -> Self::Ret>(&self, readiness: Readiness, token: Token, callback: CbF) -> bool;
     spec fn process_ens(o: &Self, n: &Self, readiness: Readiness, token: Token, r: Result<PostAction, Self::Error>) -> bool;
 //@ endregion
 //@ item src/sources/mod.rs / trait EventSource / fn process_events props=C18,C01 ret=r
+//@ rw R8 1 <<process_events<F>>> => <<process_events<CbF>>>
+//@ rw R8 1 <<callback: F,>> => <<callback: CbF,>>
+//@ rw R8 1 <<F: FnMut(Self::Event>> => <<CbF: FnMut(Self::Event>>
 //@ spec
         requires
             old(self).process_req(),
-            forall|e: Self::Event, m: &mut Self::Metadata| old(self).may_call(readiness, token, e) ==> #[trigger] call_requires(callback, (e, m)),
+            old(self).cb_req(readiness, token, callback),
         ensures
             Self::process_ens(old(self), final(self), readiness, token, r),
 //@ enditem
